@@ -177,6 +177,13 @@ func (_this *markerObjectBuilder) BuildEndContainer(ctx *Context) {
 }
 
 func (_this *markerObjectBuilder) BuildArtificiallyEndContainer(ctx *Context) {
+	if !_this.isContainer {
+		// The marked object never arrived, so there is nothing to close or to
+		// mark. (Closing the child here would close the container that holds
+		// the marker and hand it to itself as an element.)
+		ctx.UnstackBuilder()
+		return
+	}
 	_this.child.BuildArtificiallyEndContainer(ctx)
 }
 
